@@ -5,19 +5,31 @@ ten named groups (finite).  Orbit invariance / membership / idempotence of
 find_uniq_u and find_uniq_hkls are checked on random conforming UBIs with every
 group element applied beforehand.
 """
-import itertools
+import contextlib, io, itertools, os
 import numpy as np
 from .. import xtal
 from ..common import rng
 
 TECHNIQUE = ("runtime law monitor: exhaustive group axioms (closure, identity, inverses, integer det+1 operators, order, metric "
-             "preservation for conforming cells, cache-order independence) on sym_u named groups; orbit-invariance, orbit-membership "
-             "and idempotence oracle for find_uniq_u / find_uniq_hkls on random conforming UBIs x every group element")
+             "preservation for conforming cells, cache-order independence, operators unchanged by use) on sym_u named groups; "
+             "orbit-invariance, orbit-membership and idempotence oracle for find_uniq_u / find_uniq_hkls on random conforming and "
+             "strained UBIs x every group element (default and user-supplied ranking functions, result must be a fresh float array); "
+             "orbit membership only at constructed trace ties; the consumers refinegrains.makeuniq and "
+             "grid_index_parallel.uniq_grain_list against an orbit / misorientation model built from the harness's own operator copies")
 LEVEL_TEXT = ("The group-axiom part is exhaustive over the elements and all pairwise products of the ten named groups (sum of "
               "orders 67; 1,438 products) and is re-run after clearing and re-populating the generator cache in reverse order. The "
               "reduction part is exploration: random conforming cells and orientations (200/group quick, 20,000 thorough), all group "
-              "elements applied beforehand; trace ties (gap < 1e-9) are skipped and counted.")
-LEVEL_NOTE = "Trusts the harness B matrix and the table of proper point group orders; conforming cell classes are listed in the module."
+              "elements applied beforehand; trace ties (gap < 1e-9) are skipped and counted there. Added classes (60/group quick, "
+              "3,000 thorough): UBIs strained by 1e-4..1e-2, orientations driven onto a trace tie by bisection (orbit membership, cell "
+              "and indexing only), hkl lists with |h| <= 249 in float and integer dtype and shapes (3,), (3,1), (3,0), custom ranking "
+              "functions, complete (h,k) slices |h|,|k| <= 100 (quick) / 249 (thorough) at five l; makeuniq on a refinegrains object with symmetry-equivalent duplicates; uniq_grain_list with equivalent, "
+              "rotated and displaced grains.")
+LEVEL_NOTE = ("Trusts the harness B matrix and the table of proper point group orders; conforming cell classes are listed in the module. "
+              "At an exact trace tie the maximum is not unique and find_uniq_u keeps whichever tied member it meets first, so 'same "
+              "matrix for every orbit member' is not decided there (only membership). find_uniq_hkls ranks by (h*1000+k)*1000+l, "
+              "which is one-to-one only while every index of the orbit is below 500 in magnitude: hkl beyond that are decided only "
+              "when VERIF_PENDING_C16_HKL500 is set (ties at the maximum exist for hexagonal/trigonal at |l| = 500). "
+              "point_by_point.idxpoint (needs a full indexing run) is not driven.")
 
 RULE = ("group part: one case per (group, element pair); reduction part: a case = (group, cell, rotation); non-trivial = group of "
         "order >= 2 and a rotation without trace ties; distinct = (group, rounded cell, rounded rotation)")
@@ -168,6 +180,301 @@ def reduction(run, sym_u, name, ops, seed, idx):
             break
 
 
+def _angle(R):
+    return float(np.degrees(np.arccos(np.clip((np.trace(R) - 1) / 2, -1, 1))))
+
+
+def _misorientation(ops, ubi1, ubi2):
+    """smallest rotation angle (degrees) between two grains of one cell modulo the group: U2 U1^T = inv(ubi2) (o ubi1)"""
+    i2 = np.linalg.inv(ubi2)
+    return min(_angle(i2 @ (o @ ubi1)) for o in ops)
+
+
+def reduction_extra(run, sym_u, name, ops, seed, idx):
+    """strained cells, constructed ties, argument variants, aliasing, hkl domain"""
+    r = rng(seed, "C16", "extra", name, idx)
+    cell = conforming_cell(r, name)
+    U = xtal.random_rotation(r, "haar")
+    ubi0 = np.linalg.inv(U @ xtal.Bmat(cell))
+    grp = sym_u.getgroup(name)()
+    scale = np.abs(ubi0).max()
+    desc = dict(group=name, index=idx, kind="extra", cell=cell)
+    run.case(("extra", name, idx), nontrivial=len(ops) >= 2, sample=desc if idx < 1 else None)
+
+    def V(key, what):
+        run.violation(key, what, desc)
+
+    def gap(m):
+        t = sorted(np.trace(o @ m) for o in ops)
+        return (t[-1] - t[-2]) if len(t) > 1 else 1.0
+
+    # ---- (a) strained UBI: membership, idempotence and orbit invariance do not need a conforming cell
+    mag = 10 ** r.uniform(-4, -2)
+    ubi = ubi0 @ (np.eye(3) + mag * r.uniform(-1, 1, (3, 3)))
+    if gap(ubi) > 1e-6 * scale:
+        keep = ubi.copy()
+        base = sym_u.find_uniq_u(ubi, grp)
+        run.count("strained_reductions_checked")
+        if not np.array_equal(ubi, keep):
+            V("find_uniq_u:input-modified:" + name, "find_uniq_u changed its input array")
+        if not isinstance(base, np.ndarray) or base.dtype != np.float64 or base.shape != (3, 3):
+            V("find_uniq_u:result-type:" + name, "result is not a 3x3 float64 array (%r)" % (getattr(base, "dtype", type(base)),))
+        elif np.shares_memory(base, ubi) or any(np.shares_memory(base, o) for o in grp.group):
+            V("find_uniq_u:result-aliased:" + name, "result shares memory with the input or with a group operator")
+        orbit = [o @ ubi for o in ops]
+        if not member(orbit, base, 1e-9 * scale):
+            V("find_uniq_u:not-in-orbit:" + name, "strained UBI: reduced matrix is not a symmetry-equivalent of the input")
+        if np.abs(sym_u.find_uniq_u(base, grp) - base).max() > 1e-9 * scale:
+            V("find_uniq_u:not-idempotent:" + name, "strained UBI: reducing the reduced matrix changes it")
+        for o in ops:
+            if np.abs(sym_u.find_uniq_u(o @ ubi, grp) - base).max() > 1e-9 * scale:
+                V("find_uniq_u:orbit-dependent:" + name, "strained UBI: reduction of g.UBI differs from reduction of UBI")
+                break
+        hkl = r.integers(-9, 10, (3, 40)).astype(float)
+        h2 = base @ (np.linalg.inv(ubi) @ hkl)
+        if np.abs(h2 - np.round(h2)).max() > 1e-8:
+            V("find_uniq_u:indexing-changed:" + name, "strained UBI: reduced matrix no longer gives integer hkl to the grain's g-vectors")
+        # debug=1 only prints; a user ranking function: the result is the orbit member ranked highest by it, for every member
+        with contextlib.redirect_stdout(io.StringIO()):
+            bd = sym_u.find_uniq_u(ubi, grp, debug=1)
+        if not np.array_equal(bd, base):
+            V("find_uniq_u:debug-changes-result:" + name, "debug=1 changes the result")
+        w = r.uniform(-1, 1, (3, 3))
+        f = lambda m: float((w * m).sum())
+        vals = sorted(f(o @ ubi) for o in ops)
+        if len(vals) == 1 or vals[-1] - vals[-2] > 1e-6 * scale:
+            bf = sym_u.find_uniq_u(ubi, grp, func=f)
+            run.count("custom_func_reductions_checked")
+            if not member(orbit, bf, 1e-9 * scale):
+                V("find_uniq_u:func:not-in-orbit:" + name, "func=<linear form>: result not in the orbit")
+            for o in ops:
+                if np.abs(sym_u.find_uniq_u(o @ ubi, grp, func=f) - bf).max() > 1e-9 * scale:
+                    V("find_uniq_u:func:orbit-dependent:" + name, "func=<linear form>: reduction depends on the orbit member given")
+                    break
+    else:
+        run.count("strained_skipped_trace_tie")
+    # ---- (b) an orientation ON a trace tie: rotate the conforming UBI along a path until the best operator changes and
+    # bisect onto the switch.  The maximum is then not unique: only membership / cell / indexing are promised.
+    if len(ops) >= 2:
+        ax = r.normal(size=3)
+        ang = float(r.uniform(1.0, 3.0))
+
+        def at(t):
+            return ubi0 @ xtal.rot_axis_angle(ax, t * ang)
+
+        def best(m):
+            return int(np.argmax([np.trace(o @ m) for o in ops]))
+        lo, hi = 0.0, 1.0
+        if best(at(lo)) != best(at(hi)):
+            for _ in range(80):
+                mid = 0.5 * (lo + hi)
+                if best(at(mid)) == best(at(lo)):
+                    lo = mid
+                else:
+                    hi = mid
+            for tie in (at(lo), at(hi)):
+                if gap(tie) > 1e-9 * scale:
+                    continue
+                run.count("constructed_tie_reductions_checked")
+                orbit = [o @ tie for o in ops]
+                G = tie @ tie.T
+                for o in ops[: 6]:
+                    red = sym_u.find_uniq_u(o @ tie, grp)
+                    if not member(orbit, red, 1e-9 * scale):
+                        V("find_uniq_u:tie:not-in-orbit:" + name, "orientation on a trace tie: result is not in the orbit")
+                        break
+                    if np.abs(red @ red.T - G).max() > 1e-9 * np.abs(G).max():
+                        V("find_uniq_u:tie:cell-changed:" + name, "orientation on a trace tie: result has a different cell")
+                        break
+    # ---- (c) hkl lists: larger indices (every orbit index stays below 500: x-y of 249 is 498), integer dtype, odd shapes
+    H = int(r.choice([3, 40, 249]))
+    hk = r.integers(-H, H + 1, (3, 50))
+    hk[:, 0] = 0
+    hk[:, 1] = (H, -H, H)
+    hk[:, 2] = (-H, H, 0)
+    for tag, arr in (("float", hk.astype(float)), ("int", hk.astype(np.int64)), ("int32", hk.astype(np.int32))):
+        keep = arr.copy()
+        b = sym_u.find_uniq_hkls(arr, grp)
+        run.count("hkl_lists_checked_" + tag)
+        if not np.array_equal(arr, keep):
+            V("find_uniq_hkls:input-modified:" + name, "find_uniq_hkls changed its input (%s)" % tag)
+        if b.shape != arr.shape or np.shares_memory(b, arr):
+            V("find_uniq_hkls:shape-or-alias:" + name, "result shape differs or shares memory with the input (%s)" % tag)
+            continue
+        bad = None
+        for col in range(arr.shape[1]):
+            if not member([o @ keep[:, col].astype(float) for o in ops], np.asarray(b[:, col], float)):
+                bad = col
+                break
+        if bad is not None:
+            V("find_uniq_hkls:not-in-orbit:" + name, "reduced hkl %r not equivalent to %r (%s, |h|<=%d)"
+              % (b[:, bad].tolist(), keep[:, bad].tolist(), tag, H))
+        if not np.array_equal(sym_u.find_uniq_hkls(b, grp), b):
+            V("find_uniq_hkls:not-idempotent:" + name, "reducing reduced hkls changes them (%s)" % tag)
+        for o in ops:
+            if not np.array_equal(np.asarray(sym_u.find_uniq_hkls((o @ keep).astype(arr.dtype), grp), float), np.asarray(b, float)):
+                V("find_uniq_hkls:orbit-dependent:" + name, "reduction of g.hkl differs from reduction of hkl (%s, |h|<=%d)" % (tag, H))
+                break
+    one = hk[:, 3].astype(float)
+    for tag, arr in (("(3,)", one), ("(3,1)", one.reshape(3, 1)), ("(3,0)", np.zeros((3, 0)))):
+        try:
+            b = sym_u.find_uniq_hkls(arr, grp)
+        except Exception as e:
+            V("find_uniq_hkls:shape:%s:%s" % (tag, name), "find_uniq_hkls on an array of shape %s raised %s: %s" % (tag, type(e).__name__, e))
+            continue
+        run.count("hkl_shapes_checked")
+        ref = np.asarray(sym_u.find_uniq_hkls(hk.astype(float), grp))[:, 3]
+        if b.shape != arr.shape or (arr.size and not np.array_equal(np.asarray(b, float).ravel(), ref)):
+            V("find_uniq_hkls:shape:%s:%s" % (tag, name), "find_uniq_hkls on shape %s differs from the same hkl inside a list" % tag)
+    # custom ranking function (one-to-one on |h| < 1000)
+    f2 = lambda h: (h[2] * 2000.0 + h[1]) * 2000.0 + h[0]
+    bf = sym_u.find_uniq_hkls(hk.astype(float), grp, func=f2)
+    for o in ops:
+        if not np.array_equal(sym_u.find_uniq_hkls(o @ hk.astype(float), grp, func=f2), bf):
+            V("find_uniq_hkls:func:orbit-dependent:" + name, "func=<other order>: reduction of g.hkl differs from reduction of hkl")
+            break
+    # ---- pending: indices of 500 and more (still inside the documented |h| < hmax = 1000)
+    if os.environ.get("VERIF_PENDING_C16_HKL500"):
+        big = r.integers(-999, 1000, (3, 400)).astype(float)
+        big[2, ::2] = r.choice([500.0, -500.0], 200)
+        big[0, 0::4] = -999
+        big[1, 0::4] = r.integers(1, 999, 100)
+        orb = np.array([o @ big for o in ops])
+        ok = np.abs(orb).max(axis=(0, 1)) < 1000
+        big = big[:, ok]
+        b = sym_u.find_uniq_hkls(big, grp)
+        for o in ops:
+            b2 = sym_u.find_uniq_hkls(o @ big, grp)
+            if not np.array_equal(b2, b):
+                col = int(np.nonzero((b2 != b).any(axis=0))[0][0])
+                V("find_uniq_hkls:orbit-dependent-beyond-499:" + name,
+                  "hkl %r and its equivalent %r reduce to %r and %r (every index of the orbit below 1000)"
+                  % (big[:, col].tolist(), (o @ big)[:, col].tolist(), b[:, col].tolist(), b2[:, col].tolist()))
+                break
+
+
+def hkl_slice_sweep(run, sym_u, name, ops, seed, H):
+    """every (h, k) with |h|, |k| <= H at a few l: the reduced list must not depend on the orbit member given.  Random lists
+    hardly ever contain two equivalents that the ranking function cannot tell apart; a complete slice does if there are any."""
+    grp = sym_u.getgroup(name)()
+    r = rng(seed, "C16", "slice", name)
+    h, k = np.meshgrid(np.arange(-H, H + 1), np.arange(-H, H + 1), indexing="ij")
+    for l in (0, 1, H, -H, int(r.integers(-H, H + 1))):
+        hk = np.array([h.ravel(), k.ravel(), np.full(h.size, l)], float)
+        b = sym_u.find_uniq_hkls(hk, grp)
+        run.count("hkl_slice_columns_checked", hk.shape[1])
+        run.case(("hkl-slice", name, l, H), nontrivial=len(ops) >= 2)
+        for o in ops:
+            b2 = sym_u.find_uniq_hkls(o @ hk, grp)
+            if not np.array_equal(b2, b):
+                col = int(np.nonzero((b2 != b).any(axis=0))[0][0])
+                run.violation("find_uniq_hkls:orbit-dependent:" + name,
+                              "hkl %r and its equivalent %r reduce to %r and %r"
+                              % (hk[:, col].tolist(), (o @ hk)[:, col].tolist(), b[:, col].tolist(), b2[:, col].tolist()),
+                              dict(group=name, kind="slice"))
+                return
+
+
+def consumers(run, sym_u, name, ops, seed, idx):
+    """refinegrains.makeuniq and grid_index_parallel.uniq_grain_list"""
+    from ImageD11 import refinegrains, grain, grid_index_parallel
+    r = rng(seed, "C16", "consumers", name, idx)
+    cell = conforming_cell(r, name)
+    desc = dict(group=name, index=idx, kind="consumers", cell=cell)
+    run.case(("consumers", name, idx), nontrivial=len(ops) >= 2)
+
+    def V(key, what):
+        run.violation(key, what, desc)
+
+    def gap(m):
+        t = sorted(np.trace(o @ m) for o in ops)
+        return (t[-1] - t[-2]) if len(t) > 1 else 1.0
+
+    def newubi():
+        while True:
+            u = np.linalg.inv(xtal.random_rotation(r, "haar") @ xtal.Bmat(cell))
+            if gap(u) > 1e-6 * np.abs(u).max():
+                return u
+    # ---- makeuniq: every stored matrix is replaced by an equivalent one, equivalents become identical, and the grain
+    # objects are updated through set_ubi (cached U / cell refreshed)
+    ubiA, ubiB = newubi(), newubi()
+    scale = np.abs(ubiA).max()
+    oa = ops[int(r.integers(len(ops)))]
+    ob = ops[int(r.integers(len(ops)))]
+    with contextlib.redirect_stdout(io.StringIO()):
+        rg = refinegrains.refinegrains()
+    inputs = {0: ubiA, 1: oa @ ubiA, 2: ubiB, 3: ob @ ubiB}
+    for k, u in inputs.items():
+        rg.ubisread[k] = u.copy()
+        g = grain.grain(u.copy(), translation=r.uniform(-1, 1, 3))
+        g.U, g.unitcell, g.UB          # fill the caches: makeuniq has to refresh them
+        rg.grains[(k, "scan")] = g
+    try:
+        with contextlib.redirect_stdout(io.StringIO()):
+            rg.makeuniq(name)
+    except Exception as e:
+        V("makeuniq:exception:" + name, "refinegrains.makeuniq(%r) raised %s: %s" % (name, type(e).__name__, e))
+    else:
+        run.count("makeuniq_runs")
+        for k, u in inputs.items():
+            orbit = [o @ u for o in ops]
+            for what, got in (("ubisread", rg.ubisread[k]), ("grains", rg.grains[(k, "scan")].ubi)):
+                if not member(orbit, np.asarray(got, float), 1e-9 * scale):
+                    V("makeuniq:not-in-orbit:" + name, "makeuniq: %s[%d] is not a symmetry-equivalent of what was stored" % (what, k))
+            g = rg.grains[(k, "scan")]
+            if np.abs(np.linalg.inv(g.UB) - g.ubi).max() > 1e-9 * scale or np.abs(g.U @ g.B - g.UB).max() > 1e-9 / scale:
+                V("makeuniq:stale-cache:" + name, "makeuniq: grain %d still serves U/UB of the matrix it had before" % k)
+        for a, b in ((0, 1), (2, 3)):
+            if np.abs(rg.ubisread[a] - rg.ubisread[b]).max() > 1e-9 * scale or \
+                    np.abs(rg.grains[(a, "scan")].ubi - rg.grains[(b, "scan")].ubi).max() > 1e-9 * scale or \
+                    np.abs(rg.grains[(a, "scan")].ubi - rg.ubisread[a]).max() > 1e-9 * scale:
+                V("makeuniq:equivalents-differ:" + name, "makeuniq: symmetry-equivalent grains %d and %d are not stored as one matrix" % (a, b))
+    # ---- uniq_grain_list: equivalents at one place are one grain; a rotated or a displaced grain is another one
+    tolang, toldist = 0.5, 0.1
+    for _ in range(20):
+        R = xtal.rot_axis_angle(r.normal(size=3), np.radians(float(r.uniform(2.0, 20.0))))
+        ubiB = np.linalg.inv(R @ np.linalg.inv(ubiA))
+        if _misorientation(ops, ubiA, ubiB) > 4 * tolang:
+            break
+    else:
+        run.count("uniq_grain_list_skipped")
+        return
+    tiny = xtal.rot_axis_angle(r.normal(size=3), np.radians(0.01))
+    t0 = r.uniform(-1, 1, 3)
+    spec = [("A", ubiA, t0), ("A-equivalent", oa @ np.linalg.inv(tiny @ np.linalg.inv(ubiA)), t0 + 0.01),
+            ("B-rotated", ubiB, t0), ("A-displaced", ob @ ubiA, t0 + np.array([1.0, 0, 0])),
+            ("B-equivalent", ob @ ubiB, t0 - 0.02)]
+    order = r.permutation(len(spec)) if idx % 2 else np.arange(len(spec))
+    gl = [grain.grain(spec[k][1], translation=spec[k][2]) for k in order]
+    # model: greedy, same rule, misorientation from the harness's operators
+    kept = []
+    for g in gl:
+        for kg in kept:
+            if ((g.translation - kg[0].translation) ** 2).sum() <= toldist ** 2 and _misorientation(ops, kg[0].ubi, g.ubi) < tolang:
+                kg[1] += 1
+                break
+        else:
+            kept.append([g, 1])
+    if len(kept) != 3 or [k[1] for k in kept] != ([2, 2, 1] if not idx % 2 else [k[1] for k in kept]):
+        # the scenario is built to give three grains; anything else is a flaw of the scenario, not of the code under test
+        run.count("uniq_grain_list_scenario_rejected")
+        return
+    sym_names = [name] + (["trigonalP"] if name == "rhombohedralP" else [])
+    for sn in sym_names:
+        try:
+            with contextlib.redirect_stdout(io.StringIO()):
+                ul = grid_index_parallel.uniq_grain_list(sn, toldist, tolang, gl)
+        except Exception as e:
+            V("uniq_grain_list:exception:" + name, "uniq_grain_list(%r, ...) raised %s: %s" % (sn, type(e).__name__, e))
+            continue
+        run.count("uniq_grain_list_runs")
+        got = [(id(g), g.nfound) for g in ul.uniqgrains]
+        want = [(id(k[0]), k[1]) for k in kept]
+        if got != want:
+            V("uniq_grain_list:" + name, "uniq_grain_list kept %d grains with counts %r, the misorientation model keeps %d with %r"
+              % (len(got), [n for _, n in got], len(want), [n for _, n in want]))
+
+
 def check(run, replay=None):
     from ImageD11 import sym_u
     if not hasattr(sym_u, "getgroup"):
@@ -194,10 +501,44 @@ def check(run, replay=None):
     if replay is not None:
         cs = replay["case"]
         if "index" in cs:
-            reduction(run, sym_u, cs["group"], allops[cs["group"]], replay["seed"], cs["index"])
+            fn = {"extra": reduction_extra, "consumers": consumers}.get(cs.get("kind"), reduction)
+            fn(run, sym_u, cs["group"], allops[cs["group"]], replay["seed"], cs["index"])
         return
+    # names that are not groups must be refused, the alias must be the same group
+    for bad in ("nonsense", "Cubic", "", "trigonalP "):
+        try:
+            sym_u.getgroup(bad)
+            run.violation("getgroup:unknown-name-accepted", "getgroup(%r) did not raise" % bad, dict(name=bad))
+        except Exception:
+            run.count("getgroup_unknown_refused")
+    tp = [np.array(o, float) for o in sym_u.trigonalP().group]
+    if len(tp) != len(allops["rhombohedralP"]) or not all(member(allops["rhombohedralP"], o) for o in tp):
+        run.violation("group:alias:trigonalP", "trigonalP is not the rhombohedralP group", dict(group="trigonalP"))
+    nextra, ncons = (60, 12) if run.tier == "quick" else (3000, 300)
     for name in names:
         for idx in range(nred):
             reduction(run, sym_u, name, allops[name], run.seed, idx)
+        for idx in range(nextra):
+            reduction_extra(run, sym_u, name, allops[name], run.seed, idx)
+        for idx in range(ncons):
+            consumers(run, sym_u, name, allops[name], run.seed, idx)
+        hkl_slice_sweep(run, sym_u, name, allops[name], run.seed, 100 if run.tier == "quick" else 249)
+    # the cached group objects must not have been changed by all that use
+    for name in names:
+        now = sym_u.getgroup(name)().group
+        if len(now) != len(allops[name]) or not all(np.array_equal(np.asarray(a, float), b) for a, b in zip(now, allops[name])):
+            run.violation("group:changed-by-use:" + name, "operators of the cached group differ after the reductions", dict(group=name))
+        else:
+            run.count("groups_unchanged_after_use")
     run.require_counter("group_products_checked", 1000)
     run.require_counter("orbit_members_checked", 1000)
+    run.require_counter("strained_reductions_checked", 300)
+    run.require_counter("custom_func_reductions_checked", 200)
+    run.require_counter("constructed_tie_reductions_checked", 100)
+    run.require_counter("hkl_lists_checked_int", 300)
+    run.require_counter("hkl_shapes_checked", 900)
+    run.require_counter("hkl_slice_columns_checked", 1000000)
+    run.require_counter("makeuniq_runs", 100)
+    run.require_counter("uniq_grain_list_runs", 100)
+    run.require_counter("getgroup_unknown_refused", 4)
+    run.require_counter("groups_unchanged_after_use", 10)
